@@ -54,8 +54,6 @@ theorem scan_bad_usage_iff (cfg : Cfg) (t : Tree) (lk : Key) (le : EP) (rk : Key
   unfold scanArgsOk
   cases checkEmptyRange lk le rk re <;> cases r2l <;> simp
 
-/- OPEN: not yet proved
-
 /-- a quiescent scan returns precisely the entries of the interval in ascending order, each with
     its current value, truncated to the first `max` entries (right-to-left with `max = 1`: the
     greatest one). `scanSpec` is the filter of the in-order content (C08: strictly ascending, equal
@@ -71,8 +69,6 @@ theorem scan_inf_ignores_key (t : Tree) (lk lk' rk rk' : Key) (le re : EP) (max 
     (le = .inf → (scan cfgFixed t lk le rk re max r2l).tuples = (scan cfgFixed t lk' le rk re max r2l).tuples) ∧
     (re = .inf → (scan cfgFixed t lk le rk re max r2l).tuples = (scan cfgFixed t lk le rk' re max r2l).tuples) :=
   Yak.Tree.scan_inf_ignores_key t lk lk' rk rk' le re max r2l h
-
--/
 
 /-- the unrepaired scan does not ignore `l_key` with a left INF: a concrete two-leaf tree. -/
 theorem D5_counterexample :
